@@ -228,6 +228,18 @@ def run(tier: str, seed: int, t0: float) -> int:
             if info:
                 stats.count("rebased_steps", info["rebased"])
         jobs.append(("Trace_Doc", b2, f"T mappings[{name}]"))
+    # ---- T: every StepMap / Mapping query the repository's own test-suite makes (tracer plug-in)
+    from .. import suitetrace
+    data, last = suitetrace.record()
+    stats.notes.append(f"repository test-suite under the tracer: {last}")
+    b3 = trace.Batch(js2)
+    seen_q = set()
+    for ev in data.get("maps", []):
+        key = json.dumps(ev, sort_keys=True)
+        if key not in seen_q:
+            seen_q.add(key)
+            b3.add(dict(ev))
+    jobs.append(("Trace_Doc", b3, "T testsuite mappings"))
     vs = trace.validate_many(jobs, stats)
     for (mod, b2, what), verdicts in zip(jobs, vs):
         for e in b2.events:
@@ -241,7 +253,7 @@ def run(tier: str, seed: int, t0: float) -> int:
                 out.append(Violation(v[4:], "Mapping.map_result", f"{what}: tag={e['tag']} maps={[(m['ranges'], m['inv']) for m in e['maps']]} mirror={e['mirror']} from={e['from']} to={e['to']} q={bad_q}",
                                      {"kind": "real-history mapping", "event": e}, {"tag": e["tag"]}))
     # vacuity gates
-    for key, least in (("mapping_T:undo:ok", 30), ("mapping_T:rebase-slice:ok", 30), ("mapping_T:rebase-full:ok", 20), ("rebased_steps", 20), ("map_query", 1000), ("touches_query", 100), ("recover_query", 100), ("for_each", 100),
+    for key, least in (("mapping_T:undo:ok", 30), ("mapping_T:rebase-slice:ok", 30), ("mapping_T:rebase-full:ok", 20), ("mapping_T:testsuite:ok", 50), ("rebased_steps", 20), ("map_query", 1000), ("touches_query", 100), ("recover_query", 100), ("for_each", 100),
                        ("mapping_append_mapping", 10), ("mapping_append_mapping_inverted", 10),
                        ("mapping_slice", 10), ("mapping_invert", 5), ("mapping_append_mirror", 5)):
         if stats.counts.get(key, 0) < least:
